@@ -52,6 +52,7 @@ Definition deserialize_url_cu (cu : custom) (c : comb) (url : str) (al : allowed
       let* r := deserialize_problem_cu cu c body h w in
       match r with
       | None => Ok None
+      | Some VNone => Ok None                              (* `if problem is None` also catches a decoded None *)
       | Some p => Ok (Some (if return_size then VTup [VInt h; VInt w; p] else p))
       end
   end.
